@@ -373,15 +373,15 @@ impl Check for C17 {
             level: "model_checking",
             rule: "two interleaved processes (single interrupt; two branches with an interrupt each) that end by every pair of {complete, abort, skip, error} in both orders, each followed by a further action on the finished process, x both keep_processes settings x both stores, with an acknowledging channel so that message rows exist; every order of the queued engine work within the deviation bound; after every operation at quiescence the complete store (all proc, task and message rows) is compared with the snapshot before it; plus every sequence up to a depth of deploy / rm over three models with 2, 1 and 0 start events and redeploys that drop or add an event".into(),
             assumptions: vec!["client operations are issued at quiescent points; the races of a removal with in-flight work are C03/C13".into()],
-            budget_s: tier.pick(50, 600),
+            budget_s: tier.pick(50, 900),
             exhaustive_when_uncapped: true,
-            bounds: json!({"processes": 2, "deviations": 1, "model_sequence_depth": tier.pick(4, 5)}),
+            bounds: json!({"processes": 2, "deviations": 1, "model_sequence_depth": tier.pick(4, 6)}),
         }
     }
     fn items(&self, tier: Tier) -> Vec<Value> {
         let mut v: Vec<Value> = scenarios(tier).iter().enumerate().map(|(i, s)| json!({"id": s.id, "scn": i})).collect();
-        v.push(json!({"id": "models/memory", "models": "memory", "depth": tier.pick(4, 5)}));
-        v.push(json!({"id": "models/sqlite", "models": "sqlite", "depth": tier.pick(3, 4)}));
+        v.push(json!({"id": "models/memory", "models": "memory", "depth": tier.pick(4, 6)}));
+        v.push(json!({"id": "models/sqlite", "models": "sqlite", "depth": tier.pick(3, 5)}));
         v
     }
     fn run_item(&self, tier: Tier, item: &Value, out: &mut ItemOut) {
